@@ -107,4 +107,69 @@ def run(ck):
             ck.violation("P3.write-index", "P3|rfc1738_unescape|i-step", s.where(), "the write index moves by more than one per iteration (%s)" % s.desc())
         if ev.get("e") == "asg" and E.m_is_ref("j")(ev.get("lhs")) and ev.get("op") in ("--", "-="):
             ck.violation("P3.write-index", "P3|rfc1738_unescape|j-back", s.where(), "the read index moves backwards")
+    ck.rule("P4 CAPACITY rfc1738_do_escape: each input byte yields at most 3 output bytes (a %XX triplet), so the static output buffer must hold 3*strlen(url)+1 bytes "
+            "whenever the escape loop runs: it is (re)allocated as xcalloc(bufsize) with bufsize = 3*strlen(url) + c (c >= 1), and it is reused without reallocation only "
+            "with `k*strlen(url) > bufsize` (k >= 3) established false; a weaker reuse test truncates the output (unescape(escape(x)) != x) and lets the terminator be "
+            "written past the buffer")
+    de = facts.fn("rfc1738_do_escape")
+    ddefs = ck.local_defs(de)
+    purl = de.params[0]["d"] if de.params else "?"
+
+    def is_len(t):
+        t = E.strip(t)
+        if t.get("k") == "call" and t.get("f") == "strlen" and E.m_is_ref(purl)(t["a"][0]):
+            return True
+        if t.get("k") == "ref" and t.get("dk") in ("local", "static"):
+            ds = ddefs.get(t["d"], [])
+            return bool(ds) and all(is_len(d) for d in ds)
+        return False
+
+    def linear(t):
+        """(k, c) with t == k*strlen(url) + c, or None"""
+        t = E.strip(t)
+        if is_len(t):
+            return (1, 0)
+        c = E.const(t)
+        if c is not None:
+            return (0, c)
+        if t.get("k") == "bin" and t.get("op") in ("+", "-", "*"):
+            a, b = linear(t["l"]), linear(t["r"])
+            if a is None or b is None:
+                return None
+            if t["op"] == "+":
+                return (a[0] + b[0], a[1] + b[1])
+            if t["op"] == "-":
+                return (a[0] - b[0], a[1] - b[1])
+            if a[0] == 0:
+                return (a[1] * b[0], a[1] * b[1])
+            if b[0] == 0:
+                return (a[0] * b[1], a[1] * b[1])
+        return None
+    allocs = [E.strip(ev["x"]) for b in de.blocks.values() for ev in b["ev"] if ev.get("e") == "call" and E.strip(ev["x"]).get("f") in ("xcalloc", "xmalloc")]
+    ck.need(len(allocs) == 1, "C31: rfc1738_do_escape no longer allocates its buffer with one xcalloc()")
+    cap = E.strip(allocs[0]["a"][0])
+    ck.need(cap.get("k") == "ref", "C31: the allocation size of rfc1738_do_escape is not a variable: %s" % E.key(cap))
+    capname = cap["d"]
+    sets = [ev for b in de.blocks.values() for ev in b["ev"] if ev.get("e") == "asg" and E.m_is_ref(capname)(ev.get("lhs")) and ev.get("op") == "="]
+    ck.need(len(sets) == 1, "C31: expected one assignment to %s in rfc1738_do_escape" % capname)
+    lin = linear(sets[0]["rhs"])
+    if lin and lin[0] >= 3 and lin[1] >= 1:
+        ck.ok("P4.escape-capacity", de.where(sets[0]["l"]), "%s = %d*strlen(url) + %d" % (capname, lin[0], lin[1]))
+    else:
+        ck.violation("P4.escape-capacity", "P4|rfc1738_do_escape|allocation-size", de.where(sets[0]["l"]), "the output buffer is allocated with %s, less than 3*strlen(url)+1" % E.key(sets[0]["rhs"]))
+    dfl = ck.flow(de)
+    guards = []
+    for b in de.blocks.values():
+        t = b.get("term")
+        if t and t.get("c") is not None:
+            for leaf, _ in E.implied(t["c"], False):
+                ls = E.strip(leaf)
+                if ls.get("k") == "bin" and ls.get("op") == "<" and E.m_is_ref(capname)(ls.get("l")) and linear(ls.get("r")):
+                    guards.append(linear(ls["r"]))
+    if guards and all(g[0] >= 3 and g[1] >= 0 for g in guards):
+        ck.ok("P4.escape-capacity", de.where(), "the buffer is reused only with %d*strlen(url) > %s false" % (guards[0][0], capname))
+    else:
+        ck.violation("P4.escape-capacity", "P4|rfc1738_do_escape|reuse-test", de.where(),
+                     "the static buffer is reused when %s: it may hold fewer than 3*strlen(url) bytes, so escaped output is truncated (round trip broken) and the terminator "
+                     "can land past the allocation" % (["%d*strlen(url)%+d > %s is false" % (g[0], g[1], capname) for g in guards] or ["no length test"]))
     ck.assume("decode(encode(x)) == x is not decided; only the triplet shape, digit sources and bounded look-ahead")
